@@ -73,7 +73,12 @@ def fp(v):
     return v.t
 
 
+NOSIMP = [False]      # scenarios that hand their queries to an integer-encoding solver keep the terms as the code wrote them
+
+
 def simp(t):
+    if NOSIMP[0]:
+        return t
     return z3.simplify(t)
 
 
@@ -198,8 +203,8 @@ class It:
 
 
 class SymResult:
-    """Result whose discriminant is symbolic: Err iff `err` (z3 Bool); payloads for both sides"""
-    __slots__ = ('err', 'ok', 'errval')
+    """Result (or, with opt=True, Option) whose discriminant is symbolic: Err / None iff `err` (z3 Bool); payloads for both sides"""
+    __slots__ = ('err', 'ok', 'errval', 'opt')
 
-    def __init__(self, err, ok, errval):
-        self.err = err; self.ok = ok; self.errval = errval
+    def __init__(self, err, ok, errval, opt=False):
+        self.err = err; self.ok = ok; self.errval = errval; self.opt = opt
